@@ -33,7 +33,7 @@ def audit(ck, g, n=40):
             mods = {}
             for modname, src in (("inf", di),):
                 mods[modname] = src
-            tdefs = re.findall(r"(#\[derive\(Clone, Debug, PartialEq, Default\)\]\npub struct \w+ \{[^}]*\})", code.split("pub mod fal")[0])
+            tdefs = re.findall(r"(#\[derive\(Clone, Debug, PartialEq, Default\)\]\npub struct \w+(?: \{[^}]*\}|\([^)]*\);))", code.split("pub mod fal")[0])
             lib.append(f"pub mod c{i} {{ pub mod inf {{\nuse o2o::traits::*;\n" + "\n".join(tdefs) + "\n" + di + "\n}}")
             inputs[f"c{i}::inf"] = di
         else:
